@@ -553,6 +553,7 @@ func c12BlobFns(c *Ctx) {
 }
 
 var c12Canaries = []Canary{
+	{Name: "r5-migrate-uses-fetch-options", ExpectKey: "C12.R2#no-fetch-options", Edits: []Edit{{File: "commands/command_migrate.go", Find: "buildFilepathFilterWithPatternType(cfg, include, exclude, false, filepathfilter.GitAttributes)", Repl: "buildFilepathFilterWithPatternType(cfg, include, exclude, true, filepathfilter.GitAttributes)"}}},
 	{Name: "r4-no-rewrite-restarts", ExpectKey: "C12.R2#no-rewrite", Edits: []Edit{{File: "commands/command_migrate_import.go", Find: "root, err = rewriteTree(gf, db, root, file)", Repl: "root, err = rewriteTree(gf, db, commit.TreeID, file)"}}},
 	{Name: "omit-extra-headers", ExpectKey: "C12.R1#commit-field:ExtraHeaders", Edits: []Edit{{File: "git/githistory/rewriter.go", Find: "			ExtraHeaders: original.ExtraHeaders,\n", Repl: ""}}},
 	{Name: "committer-from-author", ExpectKey: "C12.R1#commit-field:Committer", Edits: []Edit{{File: "git/githistory/rewriter.go", Find: "			Committer:    original.Committer,", Repl: "			Committer:    original.Author,"}}},
